@@ -38,39 +38,44 @@ func (o OvsMap) MarshalJSON() ([]byte, error) {
 func (o *OvsMap) UnmarshalJSON(b []byte) (err error) {
 	var oMap []interface{}
 	o.GoMap = make(map[interface{}]interface{})
+	typeError := func() error {
+		return &json.UnmarshalTypeError{Value: reflect.ValueOf(oMap).String(), Type: reflect.TypeOf(*o)}
+	}
+	// an atom of a map is a JSON atom or a 2-element array (uuid, named-uuid
+	// or, for values, a set)
+	toGoAtom := func(v interface{}) (interface{}, error) {
+		vSet, isSlice := v.([]interface{})
+		if !isSlice {
+			return v, nil
+		}
+		if len(vSet) != 2 || vSet[0] == "map" {
+			return nil, typeError()
+		}
+		return ovsSliceToGoNotation(vSet)
+	}
 	if err := json.Unmarshal(b, &oMap); err == nil && len(oMap) > 1 {
-		innerSlice := oMap[1].([]interface{})
+		innerSlice, ok := oMap[1].([]interface{})
+		if !ok {
+			return typeError()
+		}
 		for _, val := range innerSlice {
-			f := val.([]interface{})
-			var k interface{}
-			switch f[0].(type) {
-			case []interface{}:
-				vSet := f[0].([]interface{})
-				if len(vSet) != 2 || vSet[0] == "map" {
-					return &json.UnmarshalTypeError{Value: reflect.ValueOf(oMap).String(), Type: reflect.TypeOf(*o)}
-				}
-				goSlice, err := ovsSliceToGoNotation(vSet)
-				if err != nil {
-					return err
-				}
-				k = goSlice
-			default:
-				k = f[0]
+			f, ok := val.([]interface{})
+			if !ok || len(f) != 2 {
+				return typeError()
 			}
-			switch f[1].(type) {
-			case []interface{}:
-				vSet := f[1].([]interface{})
-				if len(vSet) != 2 || vSet[0] == "map" {
-					return &json.UnmarshalTypeError{Value: reflect.ValueOf(oMap).String(), Type: reflect.TypeOf(*o)}
-				}
-				goSlice, err := ovsSliceToGoNotation(vSet)
-				if err != nil {
-					return err
-				}
-				o.GoMap[k] = goSlice
-			default:
-				o.GoMap[k] = f[1]
+			k, err := toGoAtom(f[0])
+			if err != nil {
+				return err
 			}
+			// a key must be usable as a Go map key: an atom or a UUID
+			if k != nil && !reflect.TypeOf(k).Comparable() {
+				return typeError()
+			}
+			v, err := toGoAtom(f[1])
+			if err != nil {
+				return err
+			}
+			o.GoMap[k] = v
 		}
 	}
 	return err
